@@ -267,7 +267,7 @@ fn run(cfg: &Cfg) -> Report {
         cfg,
         "36 input templates (results, prints, echoed statements, struct and list values, interpolation; tokenizer, parser, resolver, name, type and run-time errors incl. user errors, failed assertions, date parsing, backtraces; payloads in strings, comments, invalid tokens, type annotations, module paths) x payloads made of `< > & ' / =`, tag and entity fragments and fixed XSS strings. Successful inputs are rendered as numbat-wasm does (echo of every statement, prints, result) through HtmlFormatter; failures through HtmlWriter + codespan term::emit. Oracle: after removing the renderer's own `<span class=\"numbat-…\">`/`</span>` tokens (balanced, class names from [a-z-] only) no `<` or `>` remains and every `&` starts an entity of the escaper; un-escaping the remainder gives exactly the plain-text rendering (PlainTextFormatter / termcolor::NoColor) of the same markup or diagnostic. non-trivial = the plain rendering contains `<`, `>` or `&`; distinct = input text",
     );
-    let cases = cfg.tier.pick(3000u32, 30000u32);
+    let cases = cfg.tier.pick(8000u32, 60000u32);
     rep.absorb(run_proptest(
         cfg,
         "render",
